@@ -214,7 +214,14 @@ struct C18Model : mcx::Model {
         check_getters(I, v, opk);
     }
     // (the fractional-sample carry of the audio calls is not a setting and is not compared around failing calls, but it decides how the next audio call splits its periods: it is part of the state identity)
-    void key(void *p, vu::Ser &s) override { Inst &I = *(Inst *)p; std::string snap; full_snapshot(I, snap); s.str(snap); I.r.ser(s); s.f64(I.in.play()->m_setup.carry); }
+    void key(void *p, vu::Ser &s) override { Inst &I = *(Inst *)p; std::string snap; full_snapshot(I, snap); s.str(snap); I.r.ser(s); s.f64(I.in.play()->m_setup.carry);
+        // where the registered callbacks and their user data currently sit (the player's own record and the copies handed to the sequencer): two states that differ here have different futures,
+        // so they must not be matched - a reset that re-wires the copies would otherwise be merged with the state before it and never probed
+        OPNMIDIplay &pp = *I.in.play(); auto cls = [](void *u, int idx) -> uint8_t { return u == NULL ? 0 : u == (void *)&g_hook_tag[idx] ? 1 : 2; };
+        s.u8(cls(pp.hooks.onNote_userData, 1)); s.u8(cls(pp.hooks.onDebugMessage_userData, 2)); s.u8(cls(pp.hooks.onLoopStart_userData, 3)); s.u8(cls(pp.hooks.onLoopEnd_userData, 4));
+        s.u8(pp.hooks.onNote != NULL); s.u8(pp.hooks.onDebugMessage != NULL); s.u8(pp.hooks.onLoopStart != NULL); s.u8(pp.hooks.onLoopEnd != NULL);
+        if(BW_MidiRtInterface *q = pp.m_sequencerInterface.get()) { s.u8(cls(q->onEvent_userData, 0)); s.u8(cls(q->onDebugMessage_userData, 2)); s.u8(cls(q->onloopStart_userData, 3)); s.u8(cls(q->onloopEnd_userData, 4));
+            s.u8(q->onEvent != NULL); s.u8(q->onDebugMessage != NULL); s.u8(q->onloopStart != NULL); s.u8(q->onloopEnd != NULL); } }
     double budget_s(size_t) const override { return 20.0; }
 };
 
